@@ -491,8 +491,46 @@ func init() {
 		for _, v := range []uint64{0, 1, 9, 10, 99, 100, 1<<63 - 1, 1 << 63, ^uint64(0), 9999999999, 10000000000} {
 			emitI(v)
 		}
+		// Marshal into caller-supplied buffers of many capacities (C13: the capacity must not leak into the output)
+		memEncPayloads := [][]byte{{0xfb}, {0xfb, 0xff}, {0xfb, 0xff, 0xbe}, {0xff, 0xff, 0xff, 0xfe}, {0x3e, 0x3f}, {0},
+			[]byte("a\"<\n\u2028"), {0xfb, 0xef, 0xbe, 0xfb, 0xef}, []byte("hello world, hello base64 >>>???")}
+		emitEnc := func(api string, capacity, opt int, payload []byte) {
+			arg := append([]byte{byte(capacity >> 8), byte(capacity), byte(opt)}, payload...)
+			g.Emit("plain", api, hexArg(arg))
+		}
+		memEncCaps := []int{}
+		for c := 0; c <= 80; c++ {
+			memEncCaps = append(memEncCaps, c)
+		}
+		memEncCaps = append(memEncCaps, 1023, 1024, 1025, 1026, 1027, 1028, 1029, 1030, 4095, 4096, 4097, 4098, 4099, 4100, 8191)
+		for i, c := range memEncCaps {
+			// every capacity with payloads whose base64 uses `+`, `/` and needs one and two pad characters
+			emitEnc("encinto_bytes", c, 0, memEncPayloads[i%3])
+			emitEnc("encinto_bytes", c, i, memEncPayloads[(i+1)%3])
+			if c >= 64 || c%4 == 1 {
+				emitEnc("encinto_any", c, i, memEncPayloads[i%len(memEncPayloads)])
+			}
+		}
 		for i := 0; i < g.N; i++ {
-			switch g.R.Intn(12) {
+			switch g.R.Intn(13) {
+			case 12:
+				api := "encinto_bytes"
+				if g.R.Intn(3) == 0 {
+					api = "encinto_any"
+				}
+				var payload []byte
+				if g.R.Intn(2) == 0 {
+					payload = memEncPayloads[g.R.Intn(len(memEncPayloads))]
+				} else {
+					payload = make([]byte, g.R.Intn(40))
+					for k := range payload {
+						payload[k] = byte(0xf8 + g.R.Intn(8))
+						if g.R.Intn(4) == 0 {
+							payload[k] = byte(g.R.Intn(256))
+						}
+					}
+				}
+				emitEnc(api, memEncCaps[g.R.Intn(len(memEncCaps))], g.R.Intn(6), payload)
 			case 0:
 				emitF64(g.R.Uint64())
 			case 1:
